@@ -110,8 +110,8 @@ var sessionCatalogue = []string{
 //
 // The catalogue puts every form at top level. A form must also balance where its value is an operand of
 // something else, and where it has nothing to evaluate. sessionDerived crosses
-//   positions   every form as an element of an array literal (inline operand), as a call argument,
-//               as the body of a function whose call is an operand, as a cond arm, as a let body
+//   positions   every form as an element of an array literal (inline operand) and as the body of a function
+//               whose call is an operand; the forms below also as a call argument, a cond arm, a let body
 //   bodies      every body-carrying form with an empty body; func/method with 0..2 declared results
 //   jumps       break/continue at every sub-position of a loop body statement x enclosing scopes x loop at
 //               top level / inside a function
@@ -197,10 +197,16 @@ func sessionDerived() []string {
 			forms = append(forms, t)
 		}
 	}
-	forms = append(forms, plain...)
-	for _, pos := range sessionPositions {
-		for _, f := range forms {
+	// the extras in every position; the catalogue forms in the two positions where their code is inline in
+	// the enclosing code (a call argument is evaluated by a run of its own, which hides a surplus)
+	for pi, pos := range sessionPositions {
+		for _, f := range plain {
 			out = append(out, strings.ReplaceAll(pos, "F", f))
+		}
+		if pi == 0 || pi == 2 {
+			for _, f := range forms {
+				out = append(out, strings.ReplaceAll(pos, "F", f))
+			}
 		}
 	}
 	derivedCache = out
